@@ -335,7 +335,7 @@ func (fc *FnCtx) applyContract(con *FuncContract, name string, c *ssa.CallCommon
 	// results
 	res := fc.freshVal("ret."+shortName(name), resType)
 	fc.assumeHere(fc.typeFacts(res, resType))
-	fc.assumeResultsNotAllocated(res, resType)
+	// (no freshness assumption: a contracted callee may return values derived from its arguments)
 	post := &Env{fc: fc, heap: fc.heap, old: pre, ghost: fc.ghost, oldGhost: fc.ghost, vars: map[string]Val{}, oldvars: env.oldvars, inPost: true}
 	for k, v := range env.vars {
 		post.vars[k] = v
